@@ -47,6 +47,7 @@ func (r *run) syncEvent(as []*actor, e Ev) {
 	for _, a := range as {
 		if r.startSync(a) {
 			started = append(started, a)
+			synctest.Wait() // one at a time, so that call numbers do not depend on goroutine scheduling
 		}
 	}
 	if len(started) == 0 {
